@@ -222,6 +222,7 @@ static void do_prio(int j, int64_t prio)
     if (t->op != OP_NONE && !t->finished) count_landing("priority_change", t);
     TR2("prio", j, prio);
     t->prio_touched_this_event = true;
+    t->prio_changes++;
     cmb_process_priority_set(t->pp, prio);
 }
 
@@ -300,9 +301,12 @@ static void fault_action(void *subject, void *object)
     fault_fire((int)((fault *)subject - faults));
 }
 
+uint64_t g_harness_activity;
+
 void fault_fire(int fi)
 {
     fault *f = &faults[fi];
+    g_harness_activity++;
     if (f->fired) return;
     f->fired = true;
     if (f->victim < 0 || f->victim >= W.np) return;
@@ -385,6 +389,7 @@ static void call_begin(proc *pr, int op, int obj, int64_t arg)
 static void call_end(proc *pr, int64_t ret)
 {
     pr->ran_this_event = true;
+    g_harness_activity++;
     if (g_rec_on && pr->gen == 1)
         for (int k = g_nrec - 1; k >= 0; k--) if (g_rec[k].pid == pr->id && g_rec[k].stepk == pr->call_step) { if (g_rec[k].t1 < 0.0) g_rec[k].t1 = tnow(); break; }
     TR4("ret", pr->id, pr->op, ret, dbits(tnow()));
@@ -439,6 +444,7 @@ static void exec_step(proc *pr, const pline *l)
     const int np = W.np;
     int64_t ret;
     g_stats.events++;
+    g_harness_activity++;
     if (pis(l, "HOLD")) {
         double d = dur_of(pa(l, 1));
         call_begin(pr, OP_HOLD, 0, pa(l, 1));
